@@ -4543,6 +4543,30 @@ func (t *Terminal) Loop() error {
 						// Goroutine 3 is responsible for cancelling running preview command
 						go func(version int64) {
 							timer := time.NewTimer(previewDelayed)
+							// A cancel request sent before this goroutine is ready to
+							// receive it is lost. A newer request waiting in the box
+							// also means that this command has been superseded.
+							superseded := time.NewTicker(previewChunkDelay)
+							defer superseded.Stop()
+							kill := func(immediately bool) {
+								if immediately {
+									util.KillCommand(cmd)
+								} else {
+									// We can immediately kill a long-running preview program
+									// once we started rendering its partial output
+									delay := previewCancelWait
+									if rendered.Get() {
+										delay = 0
+									}
+									timer := time.NewTimer(delay)
+									select {
+									case <-timer.C:
+										util.KillCommand(cmd)
+									case <-finishChan:
+									}
+									timer.Stop()
+								}
+							}
 						Loop:
 							for {
 								select {
@@ -4550,24 +4574,13 @@ func (t *Terminal) Loop() error {
 									break Loop
 								case <-timer.C:
 									t.reqBox.Set(reqPreviewDelayed, version)
-								case immediately := <-t.killChan:
-									if immediately {
-										util.KillCommand(cmd)
-									} else {
-										// We can immediately kill a long-running preview program
-										// once we started rendering its partial output
-										delay := previewCancelWait
-										if rendered.Get() {
-											delay = 0
-										}
-										timer := time.NewTimer(delay)
-										select {
-										case <-timer.C:
-											util.KillCommand(cmd)
-										case <-finishChan:
-										}
-										timer.Stop()
+								case <-superseded.C:
+									if t.previewBox.Peek(reqPreviewEnqueue) {
+										kill(false)
+										break Loop
 									}
+								case immediately := <-t.killChan:
+									kill(immediately)
 									break Loop
 								case <-finishChan:
 									break Loop
